@@ -313,19 +313,28 @@ func runC03(tier string, seed uint64) int {
 		}
 		for v := 0; v < nVar; v++ {
 			k := vr.Intn(nProj)
-			if v%nVariantKinds == 9 {
-				// the variant with another parameter folder: a project that reads its soil parameters from the texture table
+			// some settings only matter for projects of a certain shape: prefer such a project
+			prefer := func(ok func(c *Scenario, custom bool) bool) {
 				for j := 0; j < nProj; j++ {
 					c := scs[(k+j)%nProj]
 					custom := false
 					for _, t := range lines[(k+j)%nProj].Tokens {
 						custom = custom || strings.HasPrefix(t, "parameter=")
 					}
-					if c.PTF == 0 && c.Soil.Horizons[0].FC == 0 && !custom {
+					if ok(c, custom) {
 						k = (k + j) % nProj
-						break
+						return
 					}
 				}
+			}
+			switch v % nVariantKinds {
+			case 9: // another parameter folder: a project that reads its soil parameters from the texture table
+				prefer(func(c *Scenario, custom bool) bool { return c.PTF == 0 && c.Soil.Horizons[0].FC == 0 && !custom })
+			case 10: // precipitation correction: the multi-year weather layouts (first round: CSV, second round: day of year)
+				want := 1 + (v/nVariantKinds)%2
+				prefer(func(c *Scenario, custom bool) bool { return c.Weather.Layout == want })
+			case 0: // groundwater source: a project with groundwater within reach
+				prefer(func(c *Scenario, custom bool) bool { return c.Soil.GW < 40 || c.GRHI < 40 })
 			}
 			l := lines[k]
 			l.ID = fmt.Sprintf("L%02dv%d", k, v)
